@@ -114,14 +114,19 @@ def optimum_return(env, max_states=40000):
     actions = [env.action_space.get_action(i) for i in range(n_act)]
     memo = {}
     NEG = float("-inf")
+    stack = {}          # states on the current search path -> (reward collected on the way to them, actions so far)
+    cycles = []         # state-changing steps that lead BACK to a state on the path with a positive balance
 
-    def best(state):
+    def best(state, cum=0.0, sofar=()):
         key = state.tensor.tobytes()
+        if key in stack and cum - stack[key][0] > 1e-9 and not cycles:
+            cycles.append((list(stack[key][1]), list(sofar[len(stack[key][1]):]), cum - stack[key][0]))
         if key in memo:
             return memo[key]
         if len(memo) > max_states:
             raise OverflowError
-        memo[key] = NEG     # monotone graph: no cycles through state-changing steps
+        memo[key] = (NEG, [])     # (a cycle through state-changing steps -- impossible when states only grow -- ends here)
+        stack[key] = (cum, sofar)
         res = (0.0, []) if env.goal_reached(state) else (NEG, [])
         loop = None
         for i, a in enumerate(actions):
@@ -136,16 +141,41 @@ def optimum_return(env, max_states=40000):
                 if rew > 1e-9 and (loop is None or rew > loop[1]):
                     loop = (i, float(rew))      # a step that changes nothing and still earns: repeatable
                 continue
-            sub, path = best(ns)
+            sub, path = best(ns, cum + float(rew), sofar + (i,))
             if sub != NEG and rew + sub > res[0]:
                 res = (float(rew) + sub, [i] + path)
         if loop is not None and res[0] != NEG:
             # the goal is reachable from here and a repeatable step pays: 50 repetitions are already an episode
             res = (res[0] + 50 * loop[1], [loop[0]] * 50 + res[1])
         memo[key] = res
+        del stack[key]
         return res
     env.reset()
-    return best(env.current_state), len(memo)
+    top = best(env.current_state)
+    if cycles and top[0] != NEG:
+        # states came back to an earlier one with a positive balance: the cycle can be repeated before going for the goal
+        prefix, cyc, gain = cycles[0]
+        env.reset()
+        reach = best_from_prefix(env, actions, shim, prefix, memo)
+        if reach is not None:
+            top = (reach[0] + 30 * gain, prefix + cyc * 30 + reach[1])
+    return top, len(memo)
+
+
+def best_from_prefix(env, actions, shim, prefix, memo):
+    """(reward of the prefix + best continuation from the state it leads to, continuation) or None"""
+    st, tot = env.current_state, 0.0
+    for i in prefix:
+        shim.install()
+        try:
+            st, _, rew, _, _ = env.generative_step(st, actions[i])
+        finally:
+            shim.remove()
+        tot += float(rew)
+    res = memo.get(st.tensor.tobytes())
+    if res is None or res[0] == float("-inf"):
+        return None
+    return (tot + res[0], list(res[1]))
 
 
 def run(ctx, spec):
